@@ -292,6 +292,22 @@ def rule_c(ctx, sa, fa, acc_f, ls):
         else:
             ok = len(solves) == 1 and norm(solves[0].targets[0]) == "solution[self.reduced_system_slice]" and norm(solves[0].value.args[0]) == "self.reduced_rhs"
             ctx.ob(R, ls.qname, f"formulation {lit!r}: reduced solution is stored in the reduced-system slice", ok, str([norm(s)[:90] for s in solves]), ls.node)
+    # the solution vector is only written through the pieces above
+    allowed = {"solution[self.flux_slice]", "solution[self.reduced_system_slice]", "solution[self.fully_reduced_system_indices_full]", "solution[0:-1]", "solution[-1]"}
+    for lit in acc_f:
+        lb = branch_body(ls.node, fa, lit)
+        if lb is None:
+            continue
+        for st in lb:
+            for s_ in ast.walk(st):
+                tgts = s_.targets if isinstance(s_, ast.Assign) else ([s_.target] if isinstance(s_, ast.AugAssign) else [])
+                for t in tgts:
+                    b = t
+                    while isinstance(b, (ast.Subscript, ast.Attribute)):
+                        b = b.value
+                    if isinstance(t, (ast.Subscript, ast.Attribute)) and isinstance(b, ast.Name) and b.id == "solution":
+                        ctx.ob(R, ls.qname, f"formulation {lit!r}: store `{norm(t)[:60]}` writes the solution through the solve / back-substitution index maps",
+                               norm(t) in allowed, f"`{norm(s_)[:90]}` modifies the solution vector outside the elimination / back-substitution pieces built at setup", s_)
     sl = m.method(base, "setup_eliminate_lagrange_multiplier")
     pair = [norm(st.value) for st in sl.node.body if isinstance(st, ast.Assign) and norm(st.targets[0]) == "self.fully_reduced_system_indices_full"]
     ctx.ob(R, sl.qname, "scatter map = reduced-system indices gathered by the fully-reduced index map", pair == ["reduced_system_indices[self.fully_reduced_system_indices]"], str(pair), sl.node)
